@@ -1,7 +1,9 @@
 package core
 
 import (
+	"fmt"
 	"go/token"
+	"strings"
 
 	"golang.org/x/tools/go/ssa"
 )
@@ -186,16 +188,23 @@ func DependsOnViaCtl(chain []*ssa.Call, v ssa.Value, enter func(*ssa.Function) b
 
 func dependsOnVia(chain []*ssa.Call, v ssa.Value, enter func(*ssa.Function) bool, src func(ssa.Value) bool, barrier func(ssa.Value) bool, ctl bool) bool {
 	type key struct {
-		v ssa.Value
-		d int
+		v   ssa.Value
+		ctx string // the chain of calls through which v's function was entered: the same value in another activation is another value
+	}
+	ctxOf := func(chain []*ssa.Call) string {
+		var b strings.Builder
+		for _, c := range chain {
+			fmt.Fprintf(&b, "%p.", c)
+		}
+		return b.String()
 	}
 	seen := map[key]bool{}
 	var rec func(v ssa.Value, chain []*ssa.Call, depth int) bool
 	rec = func(v ssa.Value, chain []*ssa.Call, depth int) bool {
-		if v == nil || depth > 40 {
+		if v == nil || depth > 60 {
 			return false
 		}
-		k := key{v, len(chain)}
+		k := key{v: v, ctx: ctxOf(chain)}
 		if seen[k] {
 			return false
 		}
